@@ -278,7 +278,7 @@ DIV_TABLE = [
     (r"(^|\.)TimeScale\.tickMethod$", r"^target$|^def:.* / {p2}$", "reached only with i >= 1 (the `not i` branch returns first), i.e. target >= steps[0] > 0 (C16.CHOICE)"),
     (r"(^|\.)TimeScale\.tickMethod$", r"^d3_time_scaleSteps\[(i|<local>) - 1\]$", "table constants are positive (C16.TABLES)"),
     (r"(^|\.)d3TimeScaleMilliseconds\.range$", r"^int\({p3}\)$", "ticks() passes a step >= 1 (C16.SUBMS)"),
-    (r"(^|\.)d3_scale_linearTickRange$", r"^step$|^def:pow\(10, ", "step = 10^k x {1,2,5,10} > 0 by construction (C13.P125)"),
+    (r"(^|\.)d3_scale_linearTickRange$", r"^step$|^def:pow\(10, |^def:10 \*\* ", "step = 10^k x {1,2,5,10} > 0 by construction (C13.P125)"),
     (r"(^|\.)d3_scale_linearTickRange$", r"^{p1}$", "documented contract: tick count >= 1"),
     (r"(^|\.)colorFunc$", r"^len\({p0}\.options\[{p1}\]\)$", "documented contract: a colour list is non-empty"),
     (r"^vpsc\.", r"^\w+\.scale$", "documented contract: variable scales are positive"),
@@ -414,6 +414,10 @@ def _nonzero_field(ctx, f, den):
     g0 = f
     while g0 is not None and g0.cls is None:
         g0 = g0.parent
+    if isinstance(den, ast.Name):
+        r_ = _reparse(resolve_local(f, den))  # `step = self.step; x / step`
+        if r_ is not None:
+            den = r_
     if g0 is None or not g0.params or not (isinstance(den, ast.Attribute) and isinstance(den.value, ast.Name) and den.value.id == g0.params[0]):
         return None
     cls, attr = g0.cls, den.attr
